@@ -5,9 +5,10 @@ androguard once) under the rendez-vous scheduler vf.monitor.sched.  Pause points
 (the count that becomes session_id), I = Table.insert of the session row.  ALL interleavings of the per-process sequences R;I are
 enumerated by stateless depth-first replay (6 for k=2, 90 for k=3), each on (a) a fresh database file and (b) a database on which
 n>=1 sessions were created before (by the same real code, serially).
-Thorough tier adds: extended points S (_sync_table inside insert), C (checkfirst said 'missing', CREATE TABLE next) with I moved
-directly before the INSERT statement - exhaustive for k=2, 300 seeded random schedules for k=3 - and an unscheduled stress run
-(16 processes, seeded 0..2 ms sleeps at the hook points, barrier per round).
+Extended points S (_sync_table inside insert), C (checkfirst said 'missing', CREATE TABLE next) with I moved directly before the
+INSERT statement: exhaustive for k=2 on the fresh database (both tiers; variable number of points per process, enumerated dynamically).
+Thorough tier adds: the same on the prepared database, 300+60 seeded random extended schedules for k=3, a database prepared with 3 rows,
+and an unscheduled stress run (50 rounds x 16 processes, seeded 0..2 ms sleeps at the hook points, released together from a barrier).
 
 Oracle (parent side, over the recorded history + the table read with the stdlib sqlite3 module):
   every constructor returned (an exception = session not created successfully); returned session_ids pairwise distinct and distinct
@@ -215,9 +216,12 @@ def evaluate(ctx, env, cfgname, k, state, r, path, mode):
         ctx.violation(mech, what, {"mode": mode, "k": k, "db_state": state, "pre_existing_ids": pre, "schedule": sched_s,
                                     "failing_child": f, "window_overlaps_with": ov, "results": summary, "rows_after": rows,
                                     "points": "R=count rows, I=insert row, S=_sync_table in insert, C=checkfirst passed/CREATE next; digit=process"})
-    fs = ctx.extra.setdefault("schedules", {}).setdefault(cfgname, {"failing": {}, "passing": 0})
+    fs = ctx.extra.setdefault("schedules", {}).setdefault(cfgname, {"failing": {}, "passing": 0, "failing_count": 0, "failing_by_mechanism": {}})
     if verdicts:
         ctx.count("failing_schedules")
+        fs["failing_count"] += 1
+        for m in sorted(set(v[0] for v in verdicts)):
+            fs["failing_by_mechanism"][m] = fs["failing_by_mechanism"].get(m, 0) + 1
         if len(fs["failing"]) < 120:
             fs["failing"][sched_s or "round%s" % r.get("round")] = sorted(set(v[0] for v in verdicts))
     else:
@@ -321,15 +325,16 @@ def run(ctx):
                     ctx.inconclusive("enumerated %d interleavings for k=%d on %s, expected %d" % (n, k, state, EXPECTED[k]))
                     all_complete = False
         ctx.exhaustive = bool(all_complete)
+        # extended points (S, C): the lazy CREATE TABLE inside the first insert on an empty file is part of "created successfully"
+        exhaustive(ctx, env, 2, "fresh", ["R", "S", "C", "I"], "RSCI", max_runs=600)
         if not ctx.quick:
-            for state in ("fresh", "prepared1"):
-                exhaustive(ctx, env, 2, state, ["R", "S", "C", "I"], "RSCI", max_runs=600)
+            exhaustive(ctx, env, 2, "prepared1", ["R", "S", "C", "I"], "RSCI", max_runs=600)
             sampled(ctx, env, 3, "fresh", ["R", "S", "C", "I"], "RSCI", 300)
-            sampled(ctx, env, 3, "prepared1", ["R", "S", "C", "I"], "RSCI", 100)
+            sampled(ctx, env, 3, "prepared1", ["R", "S", "C", "I"], "RSCI", 60)
             stress(ctx, env, 16, 50, ["fresh", "prepared1", "prepared3"])
         ctx.extra["children_forked"] = env.zy.spawned
         for cfg, v in sorted(ctx.extra.get("schedules", {}).items()):
-            ctx.sample({"config": cfg, "passing": v["passing"], "failing": len(v["failing"]), "failing_examples": dict(list(sorted(v["failing"].items()))[:3])})
+            ctx.sample({"config": cfg, "passing": v["passing"], "failing": v["failing_count"], "by_mechanism": v["failing_by_mechanism"], "failing_examples": dict(list(sorted(v["failing"].items()))[:3])})
     finally:
         if env:
             env.close()
